@@ -89,6 +89,10 @@ def run(c):
         c.violation({"kind": "proof or correspondence no longer checks; no input violating C17 was found", "broken": c.broken}, no_input=True)
     if c.tier == "thorough" and pr["ok"]:
         okc, outc = c.coqchk(PROPS)
+        if not okc and "Inconsistent assumptions" in outc:
+            # other developments in the shared coq/ tree were rebuilt while this check ran: rebuild the closure, retry once
+            c.coq_build([PROPS])
+            okc, outc = c.coqchk(PROPS)
         cov["coqchk"] = {"ok": okc, "tail": outc[-1200:]}
         if not okc:
             c.violation({"kind": "coqchk rejected the compiled development", "log": outc}, no_input=True)
